@@ -14,6 +14,7 @@ package vault
 //vx:redirect (*github.com/openbao/openbao/v2/internal/vault.ExpirationManager).removeIndexByToken vxRemoveIndex
 //vx:redirect (*github.com/openbao/openbao/v2/internal/vault.ExpirationManager).FetchLeaseTimesByToken vxFetchLeaseTimes
 //vx:redirect (*github.com/openbao/openbao/v2/internal/vault.ExpirationManager).updatePending vxUpdatePending
+//vx:redirect (*github.com/openbao/openbao/v2/internal/vault.ExpirationManager).loadEntry vxLoadEntry
 //vx:noop github.com/hashicorp/go-metrics/compat.*
 //vx:unwind 200
 
@@ -79,7 +80,23 @@ func vxPersistEntry(m *ExpirationManager, ctx context.Context, le *leaseEntry) e
 		return vxErr("persist failed")
 	}
 	vxL.entries = append(vxL.entries, le.LeaseID)
+	vxStored = append(vxStored, le)
 	return nil
+}
+
+// persisted lease entries, for code that (re)loads a lease from storage (the regular revocation path)
+var vxStored []*leaseEntry
+
+func vxLoadEntry(m *ExpirationManager, ctx context.Context, leaseID string) (*leaseEntry, error) {
+	if !vxHasS(vxL.entries, leaseID) {
+		return nil, nil
+	}
+	for _, le := range vxStored {
+		if le.LeaseID == leaseID {
+			return le, nil
+		}
+	}
+	return nil, nil
 }
 
 func vxDeleteEntry(m *ExpirationManager, ctx context.Context, le *leaseEntry) error {
@@ -121,7 +138,7 @@ func vxUpdatePending(m *ExpirationManager, le *leaseEntry) { vxL.pending = appen
 func VxRegister() {
 	ctx := namespace.RootContext(context.Background())
 	m := &ExpirationManager{router: &routing.Router{}, quitContext: context.Background()}
-	vxL = &vxLeaseWorld{}
+	vxL, vxStored = &vxLeaseWorld{}, nil
 	// every single and double failure
 	f1 := vxChoose("first failing collaborator (7 = none)", 8)
 	f2 := vxChoose("second failing collaborator (7 = none)", 8)
